@@ -27,6 +27,12 @@ JOBS = 8
 UFUNC1 = {"negative": np.negative, "square": np.square, "fabs": np.abs, "tanh": np.tanh, "exp": np.exp, "sin": np.sin}
 UFUNC2 = {"add": np.add, "subtract": np.subtract, "multiply": np.multiply, "maximum": np.maximum, "minimum": np.minimum, "divide": np.divide}
 ACTIV = {"relu": lambda x: np.maximum(x, 0), "sigmoid": lambda x: 1 / (1 + np.exp(-x)), "relu6": lambda x: np.minimum(np.maximum(x, 0), 6)}
+# activations that carry run-time state (their parameter must survive the trip through the functor): always generated with a non-default value
+PACTIV = {"leaky_relu": (lambda x, p: np.where(x >= 0, x, x * p[0]), [[0.25], [0.5], [2.0]]),
+          "hardtanh": (lambda x, p: np.clip(x, p[0], p[1]), [[-0.5, 2.0], [-3.0, 0.5]]),
+          "softshrink": (lambda x, p: np.where(x > p[0], x - p[0], np.where(x < -p[0], x + p[0], 0 * x)), [[1.5], [0.25]])}
+for _n, (_f, _ps) in PACTIV.items():
+    ACTIV[_n] = (lambda f, ps: (lambda x: f(x, ps[0])))(_f, _ps)
 FLOAT_ONLY = {"tanh", "exp", "sin", "divide", "sigmoid", "softmax", "mean"}
 BROADCASTING = set(UFUNC2) | {"broadcast_to", "matmul", "where"}
 REDUCING = {"sum", "prod", "mean", "softmax", "matmul", "cumsum", "cumprod"}
@@ -37,7 +43,7 @@ ALL_OPS = ["transpose", "reshape", "flatten", "expand_dims", "squeeze", "flip", 
            "concatenate", "matmul", "sum", "prod", "mean", "cumsum", "cumprod", "softmax", "where", "stack"] + sorted(UFUNC1) + sorted(UFUNC2) + sorted(ACTIV)
 PROBE_ONLY = {"pad", "take"}  # pad: static_assert(arity == n_operands) in functional::apply; take: no get_function_t (GET_FUNCTION_UNSUPPORTED)
 RT_KEEPDIMS_PROBE = {"op": "pipe", "arrays": [{"shape": [2, 3], "data": [1, 2, 3, 4, 5, 6]}], "stages": [{"f": "sum", "in": [0], "a": {"axis": 1, "keepdims": True}}]}
-QUICK_UFUNC_PROBES = {"negative", "tanh", "relu", "add", "divide", "maximum"}
+QUICK_UFUNC_PROBES = {"negative", "tanh", "relu", "add", "divide", "maximum", "leaky_relu", "hardtanh", "softshrink"}
 MULTI = set(UFUNC2) | {"concatenate", "matmul", "where", "stack"}
 F_DANGLING = "C13-ufunc-view-operand-dangling-reference"
 F_ORDER = "C13-composition-view-operand-order"
@@ -171,6 +177,9 @@ def gen_stage(b, op, src):
         r = np.take(x, a["indices"], ax)
     elif op in UFUNC1:
         r = UFUNC1[op](x)
+    elif op in PACTIV:
+        a = {"params": rnd.choice(PACTIV[op][1])}
+        r = PACTIV[op][0](x, a["params"])
     elif op in ACTIV:
         r = ACTIV[op](x)
     elif op in UFUNC2:
@@ -277,7 +286,8 @@ def _r_unary_ufunc(name):
 
 def _r_activation(name):
     def r(x, a, k, pre, u):
-        return "view::%s(%s)" % (name, x[0]), None, ["nmtools/array/array/activations/%s.hpp" % name]
+        ps = "".join(",%r" % float(v) for v in (a.get("params") or []))
+        return "view::%s(%s%s)" % (name, x[0], ps), None, ["nmtools/array/array/activations/%s.hpp" % name]
     return r
 
 
